@@ -986,12 +986,12 @@ func run(c *vf.Ctx) {
 
 	defer snapgen.UseFastTmp("c09")()
 
-	nSeq := c.N(48, 3000)
+	nSeq := c.N(48, 1000)
 	if v := os.Getenv("VERIF_NSEQ"); v != "" {
 		fmt.Sscan(v, &nSeq)
 	}
 	nOps := c.N(10, 14)
-	par := c.N(6, 10)
+	par := snapgen.Par(c.N(4, 8))
 
 	type job struct {
 		tag    string
@@ -1004,7 +1004,7 @@ func run(c *vf.Ctx) {
 	}
 	// Enumerated part: every exit point of Close, for both sink kinds, on a
 	// set of store shapes, with and without FULL_NEEDED.
-	nShapes := c.N(1, 20)
+	nShapes := c.N(1, 12)
 	no := 0
 	for sh := 0; sh < nShapes; sh++ {
 		for _, kind := range []string{"localfull", "install", "localinc"} {
@@ -1120,5 +1120,5 @@ func run(c *vf.Ctx) {
 	close(ch)
 	wg.Wait()
 	c.Extra("sequences_planned", len(jobs))
-	c.Require(int64(c.N(250, 8000)), c.N(100, 3000))
+	c.Require(int64(c.N(250, 5000)), c.N(100, 2000))
 }
